@@ -1144,7 +1144,6 @@ out:
 static pid_t
 run_task(_task_t t)
 {
-/* assumes ev_loop_fork() has been called */
 	static char *args[] = {
 		"echsx",
 		/* we want a vjournal log, defo defo */
@@ -2303,9 +2302,10 @@ task_cb(EV_P_ ev_periodic *w, int UNUSED(revents))
 	    t->nsim < (unsigned int)t->t->max_simul) {
 		pid_t p;
 
-		/* indicate that we might want to reuse the loop */
-		ev_loop_fork(EV_A);
-
+		/* no ev_loop_fork() here, the executor is posix_spawn()ed and
+		 * never touches our loop; flagging a fork makes libev (4.31+)
+		 * reschedule all periodics with the current time, upon which
+		 * resched() drops what fell due while we were busy spawning */
 		if (LIKELY((p = run_task(t)) > 0)) {
 			ev_child *c = make_chld();
 
